@@ -4,7 +4,7 @@
    commit a050122, SpellCheck's word cache, any eviction).  The statements quantify over every rule set
    (pattern_rel, struct_pre, struct_post), every suggestion function, every configuration / token-kind type and
    hash, every history and every eviction schedule. *)
-Require Import Base Overlap Cache CacheProofs C05Entry C05EntryProofs C05Lru C05LruProofs.
+Require Import Base Overlap Cache CacheProofs C05Entry C05EntryProofs C05Lru C05LruProofs C05Thread C05ThreadProofs Tables_c05statics.
 
 (* `chunk.span()` (minimum and maximum over the starts and ends of the chunk's tokens, Span::new) never panics *)
 Theorem C05_hull_total : forall (kind : Type) (ts : list (tok kind)), exists o : option span, hull_of ts = Ok o.
@@ -387,3 +387,287 @@ Example C05_lru_nonvacuous :
     ([[97]; [98]]%N, [false; false; true; false; false; false], spec_words ex_suggest ex_mk lx_words) /\
   spell_ok ex_suggest (@nil (text * list text)).
 Proof. split; [vm_compute; reflexivity|intros ? ? []]. Qed.
+
+(* ====================================================================================================
+   WHAT IS PER THREAD AND PER PROCESS (Model/C05Thread.v): the once cells (thread_local! pattern caches of
+   Document / CollapseIdentifiers, lazy_static! curated dictionaries), the per-thread vector of Levenshtein
+   automaton builders (fst_dictionary.rs build_dfa), the per-thread scratch buffers of WithinEditDistance — as
+   explicit state threaded through the entry-point model; every operation names the thread that executes it.
+   ==================================================================================================== *)
+
+(* a once cell (thread_local!/lazy_static! initialised on first use): empty or already set, it yields its
+   initialiser's value, and stays within "empty or set to that value" *)
+Theorem C05_once_cell_transparent : forall (A : Type) (init : unit -> A) (c : option A), cell_ok init c -> exists c' : option A, once_get init c = (init tt, c') /\ cell_ok init c'.
+Proof. exact once_get_spec. Qed.
+Check C05_once_cell_transparent : forall (A : Type) (init : unit -> A) (c : option A), cell_ok init c -> exists c' : option A, once_get init c = (init tt, c') /\ cell_ok init c'.
+Print Assumptions C05_once_cell_transparent.
+
+(* build_dfa: the `find(..).unwrap()` after the conditional push never panics, whatever the vector holds *)
+Theorem C05_build_dfa_total : forall (B DFA : Type) (builder_new : nat -> B) (build : B -> text -> DFA) (d : nat) (q : text) (v : builders B),
+  exists (b : B) (v' : builders B), build_dfa builder_new build d q v = Ok (build b q, v').
+Proof. exact build_dfa_total. Qed.
+Check C05_build_dfa_total : forall (B DFA : Type) (builder_new : nat -> B) (build : B -> text -> DFA) (d : nat) (q : text) (v : builders B),
+  exists (b : B) (v' : builders B), build_dfa builder_new build d q v = Ok (build b q, v').
+Print Assumptions C05_build_dfa_total.
+
+(* build_dfa: if every builder in the thread's vector is the builder of the distance it is filed under (true of
+   the initial vector [(3, new(3))] and preserved), the automaton is built by a builder of EXACTLY the requested
+   distance — whichever distances the thread served before, in whatever order *)
+Theorem C05_build_dfa_exact : forall (B DFA : Type) (builder_new : nat -> B) (build : B -> text -> DFA) (d : nat) (q : text) (v : builders B),
+  builders_ok builder_new v -> exists v' : builders B, build_dfa builder_new build d q v = Ok (build (builder_new d) q, v') /\ builders_ok builder_new v'.
+Proof. exact build_dfa_ok. Qed.
+Check C05_build_dfa_exact : forall (B DFA : Type) (builder_new : nat -> B) (build : B -> text -> DFA) (d : nat) (q : text) (v : builders B),
+  builders_ok builder_new v -> exists v' : builders B, build_dfa builder_new build d q v = Ok (build (builder_new d) q, v') /\ builders_ok builder_new v'.
+Print Assumptions C05_build_dfa_exact.
+
+(* edit_distance_min_alloc (literal: clear/extend, resize WITHOUT zeroing, two loops with checked u8 additions,
+   indexing and index writes, swap): the distance it returns — or the panic — is the same for any two pairs of
+   buffers: what earlier calls on the thread left in BUFFERS is never read *)
+Theorem C05_edit_distance_buffers_unobservable : forall (src tgt : text) (p1 c1 p2 c2 : list N), res_rel (fun r1 r2 : N * (list N * list N) => fst r1 = fst r2) (ed_min_alloc src tgt p1 c1) (ed_min_alloc src tgt p2 c2).
+Proof. exact ed_buffers_unobservable. Qed.
+Check C05_edit_distance_buffers_unobservable : forall (src tgt : text) (p1 c1 p2 c2 : list N), res_rel (fun r1 r2 : N * (list N * list N) => fst r1 = fst r2) (ed_min_alloc src tgt p1 c1) (ed_min_alloc src tgt p2 c2).
+Print Assumptions C05_edit_distance_buffers_unobservable.
+
+(* ... hence WithinEditDistance::matches, the only reader of BUFFERS, does not depend on them *)
+Theorem C05_within_edit_distance_buffers_unobservable : forall (content word : text) (k : N) (b1 b2 : list N * list N),
+  res_rel (fun r1 r2 : nat * (list N * list N) => fst r1 = fst r2) (wed_matches content word k b1) (wed_matches content word k b2).
+Proof. exact wed_buffers_unobservable. Qed.
+Check C05_within_edit_distance_buffers_unobservable : forall (content word : text) (k : N) (b1 b2 : list N * list N),
+  res_rel (fun r1 r2 : nat * (list N * list N) => fst r1 = fst r2) (wed_matches content word k b1) (wed_matches content word k b2).
+Print Assumptions C05_within_edit_distance_buffers_unobservable.
+
+(* a freshly spawned thread (all cells empty, builders [(3, new(3))], empty buffers) satisfies the invariant *)
+Theorem C05_fresh_thread_inv : forall (B pat : Type) (builder_new : nat -> B) (contraction_init ellipsis_init latin_init article_init wordnum_init : unit -> pat),
+  tinv B pat builder_new contraction_init ellipsis_init latin_init article_init wordnum_init (tfresh B pat builder_new).
+Proof. exact tfresh_inv. Qed.
+Check C05_fresh_thread_inv : forall (B pat : Type) (builder_new : nat -> B) (contraction_init ellipsis_init latin_init article_init wordnum_init : unit -> pat),
+  tinv B pat builder_new contraction_init ellipsis_init latin_init article_init wordnum_init (tfresh B pat builder_new).
+Print Assumptions C05_fresh_thread_inv.
+
+(* a freshly started process with no thread state yet satisfies the invariant, whatever linter it holds *)
+Theorem C05_fresh_world_inv : forall (cfg dict B pat MD FD : Type) (builder_new : nat -> B) (contraction_init ellipsis_init latin_init article_init wordnum_init : unit -> pat) (mut_new : unit -> MD)
+    (fst_from : MD -> FD) (st : estate cfg dict),
+  winv cfg dict B pat MD FD builder_new contraction_init ellipsis_init latin_init article_init wordnum_init mut_new fst_from {| w_p := pfresh MD FD; w_ts := []; w_e := st |}.
+Proof. exact wfresh_inv. Qed.
+Check C05_fresh_world_inv : forall (cfg dict B pat MD FD : Type) (builder_new : nat -> B) (contraction_init ellipsis_init latin_init article_init wordnum_init : unit -> pat) (mut_new : unit -> MD)
+    (fst_from : MD -> FD) (st : estate cfg dict),
+  winv cfg dict B pat MD FD builder_new contraction_init ellipsis_init latin_init article_init wordnum_init mut_new fst_from {| w_p := pfresh MD FD; w_ts := []; w_e := st |}.
+Print Assumptions C05_fresh_world_inv.
+
+(* THE WORLD REFINES THE SPECIFICATION.  A world = process cells + one state per thread id + the linter (an entry
+   point of C05Entry over Cache.lint_doc).  History = list of (thread id, operation): any C05Entry operation,
+   `WLint lang src` (Document::new on the executing thread: reads the pattern cells in the code's order — then
+   lint; the spelling misses call FstDictionary::fuzzy_match's two build_dfa on the executing thread's
+   builders; the pattern rules leave ANY garbage in BUFFERS), `WRebuild user_words cfg` (curated dictionary through
+   the two process cells, the FST cell's initialiser forcing the other).  For EVERY world within the invariant
+   (fresh or with any past), every thread assignment, under the two hash hypotheses: no panic, and the answers
+   are espec_hist of the ERASED history — a term that mentions no thread id, no cell, no builder vector, no
+   buffer, no cache *)
+Theorem C05_world_refinement : forall (cfg kind dict B DFA pat MD FD lang : Type) (cfg_hash : cfg -> N) (tok_hash : list (tok kind) -> N) (fill : cfg -> cfg)
+    (pattern_rel : dict -> text -> list (tok kind) -> cfg -> list clint) (struct_pre struct_post : dict -> cfg -> doc kind -> list clint) (spell_on : cfg -> bool)
+    (spell_mk : text -> span -> list text -> clint) (ctx : doc kind -> clint -> N) (builder_new : nat -> B) (build : B -> text -> DFA) (sdist : dict -> text -> nat)
+    (snorm slower : text -> text) (sfinish : dict -> text -> DFA -> DFA -> list text) (contraction_init ellipsis_init latin_init article_init wordnum_init : unit -> pat)
+    (mut_new : unit -> MD) (fst_from : MD -> FD) (mkdict : FD -> list text -> dict) (uses_collapse : lang -> bool)
+    (doc_body : dict -> lang -> option pat -> pat -> pat -> pat -> pat -> text -> list (list (tok kind)) * list (span * text) * N) (e : entry) (h : list (nat * wop cfg kind dict lang))
+    (w : world cfg dict B pat MD FD) (dc0 : dict) (c0 : cfg),
+  winv cfg dict B pat MD FD builder_new contraction_init ellipsis_init latin_init article_init wordnum_init mut_new fst_from w ->
+  w_e w = efresh dc0 c0 ->
+  wdocs_ok cfg kind dict pat MD FD lang contraction_init ellipsis_init latin_init article_init wordnum_init mut_new fst_from mkdict uses_collapse doc_body (map snd h) dc0 ->
+  hash_inj_on cfg kind cfg_hash
+    (ehist_triples cfg kind dict fill
+       (erase cfg kind dict pat MD FD lang contraction_init ellipsis_init latin_init article_init wordnum_init mut_new fst_from mkdict uses_collapse doc_body (map snd h) dc0) c0) ->
+  tok_hash_inj_on cfg kind tok_hash
+    (ehist_triples cfg kind dict fill
+       (erase cfg kind dict pat MD FD lang contraction_init ellipsis_init latin_init article_init wordnum_init mut_new fst_from mkdict uses_collapse doc_body (map snd h) dc0) c0) ->
+  exists w' : world cfg dict B pat MD FD,
+    wrun cfg kind dict B DFA pat MD FD lang cfg_hash tok_hash fill pattern_rel struct_pre struct_post spell_on spell_mk ctx builder_new build sdist snorm slower sfinish
+      contraction_init ellipsis_init latin_init article_init wordnum_init mut_new fst_from mkdict uses_collapse doc_body e h w =
+    Ok
+      (w',
+       espec_hist cfg kind dict fill pattern_rel struct_pre struct_post spell_on (suggest_pure dict B DFA builder_new build sdist snorm slower sfinish) spell_mk ctx e
+         (erase cfg kind dict pat MD FD lang contraction_init ellipsis_init latin_init article_init wordnum_init mut_new fst_from mkdict uses_collapse doc_body (map snd h) dc0)
+         {| a_dict := dc0; a_cfg := c0; a_ign := [] |}) /\
+    winv cfg dict B pat MD FD builder_new contraction_init ellipsis_init latin_init article_init wordnum_init mut_new fst_from w' /\
+    abs_of cfg dict (w_e w') =
+    abs_after cfg kind dict ctx
+      (erase cfg kind dict pat MD FD lang contraction_init ellipsis_init latin_init article_init wordnum_init mut_new fst_from mkdict uses_collapse doc_body (map snd h) dc0)
+      {| a_dict := dc0; a_cfg := c0; a_ign := [] |}.
+Proof. exact world_refinement. Qed.
+Check C05_world_refinement : forall (cfg kind dict B DFA pat MD FD lang : Type) (cfg_hash : cfg -> N) (tok_hash : list (tok kind) -> N) (fill : cfg -> cfg)
+    (pattern_rel : dict -> text -> list (tok kind) -> cfg -> list clint) (struct_pre struct_post : dict -> cfg -> doc kind -> list clint) (spell_on : cfg -> bool)
+    (spell_mk : text -> span -> list text -> clint) (ctx : doc kind -> clint -> N) (builder_new : nat -> B) (build : B -> text -> DFA) (sdist : dict -> text -> nat)
+    (snorm slower : text -> text) (sfinish : dict -> text -> DFA -> DFA -> list text) (contraction_init ellipsis_init latin_init article_init wordnum_init : unit -> pat)
+    (mut_new : unit -> MD) (fst_from : MD -> FD) (mkdict : FD -> list text -> dict) (uses_collapse : lang -> bool)
+    (doc_body : dict -> lang -> option pat -> pat -> pat -> pat -> pat -> text -> list (list (tok kind)) * list (span * text) * N) (e : entry) (h : list (nat * wop cfg kind dict lang))
+    (w : world cfg dict B pat MD FD) (dc0 : dict) (c0 : cfg),
+  winv cfg dict B pat MD FD builder_new contraction_init ellipsis_init latin_init article_init wordnum_init mut_new fst_from w ->
+  w_e w = efresh dc0 c0 ->
+  wdocs_ok cfg kind dict pat MD FD lang contraction_init ellipsis_init latin_init article_init wordnum_init mut_new fst_from mkdict uses_collapse doc_body (map snd h) dc0 ->
+  hash_inj_on cfg kind cfg_hash
+    (ehist_triples cfg kind dict fill
+       (erase cfg kind dict pat MD FD lang contraction_init ellipsis_init latin_init article_init wordnum_init mut_new fst_from mkdict uses_collapse doc_body (map snd h) dc0) c0) ->
+  tok_hash_inj_on cfg kind tok_hash
+    (ehist_triples cfg kind dict fill
+       (erase cfg kind dict pat MD FD lang contraction_init ellipsis_init latin_init article_init wordnum_init mut_new fst_from mkdict uses_collapse doc_body (map snd h) dc0) c0) ->
+  exists w' : world cfg dict B pat MD FD,
+    wrun cfg kind dict B DFA pat MD FD lang cfg_hash tok_hash fill pattern_rel struct_pre struct_post spell_on spell_mk ctx builder_new build sdist snorm slower sfinish
+      contraction_init ellipsis_init latin_init article_init wordnum_init mut_new fst_from mkdict uses_collapse doc_body e h w =
+    Ok
+      (w',
+       espec_hist cfg kind dict fill pattern_rel struct_pre struct_post spell_on (suggest_pure dict B DFA builder_new build sdist snorm slower sfinish) spell_mk ctx e
+         (erase cfg kind dict pat MD FD lang contraction_init ellipsis_init latin_init article_init wordnum_init mut_new fst_from mkdict uses_collapse doc_body (map snd h) dc0)
+         {| a_dict := dc0; a_cfg := c0; a_ign := [] |}) /\
+    winv cfg dict B pat MD FD builder_new contraction_init ellipsis_init latin_init article_init wordnum_init mut_new fst_from w' /\
+    abs_of cfg dict (w_e w') =
+    abs_after cfg kind dict ctx
+      (erase cfg kind dict pat MD FD lang contraction_init ellipsis_init latin_init article_init wordnum_init mut_new fst_from mkdict uses_collapse doc_body (map snd h) dc0)
+      {| a_dict := dc0; a_cfg := c0; a_ign := [] |}.
+Print Assumptions C05_world_refinement.
+
+(* ... so two runs of the same operations — another assignment of operations to threads, another process,
+   another past of the threads — answer the same *)
+Theorem C05_thread_assignment_independent : forall (cfg kind dict B DFA pat MD FD lang : Type) (cfg_hash : cfg -> N) (tok_hash : list (tok kind) -> N) (fill : cfg -> cfg)
+    (pattern_rel : dict -> text -> list (tok kind) -> cfg -> list clint) (struct_pre struct_post : dict -> cfg -> doc kind -> list clint) (spell_on : cfg -> bool)
+    (spell_mk : text -> span -> list text -> clint) (ctx : doc kind -> clint -> N) (builder_new : nat -> B) (build : B -> text -> DFA) (sdist : dict -> text -> nat)
+    (snorm slower : text -> text) (sfinish : dict -> text -> DFA -> DFA -> list text) (contraction_init ellipsis_init latin_init article_init wordnum_init : unit -> pat)
+    (mut_new : unit -> MD) (fst_from : MD -> FD) (mkdict : FD -> list text -> dict) (uses_collapse : lang -> bool)
+    (doc_body : dict -> lang -> option pat -> pat -> pat -> pat -> pat -> text -> list (list (tok kind)) * list (span * text) * N) (e : entry)
+    (h1 h2 : list (nat * wop cfg kind dict lang)) (w1 w2 : world cfg dict B pat MD FD) (dc0 : dict) (c0 : cfg),
+  map snd h1 = map snd h2 ->
+  winv cfg dict B pat MD FD builder_new contraction_init ellipsis_init latin_init article_init wordnum_init mut_new fst_from w1 ->
+  winv cfg dict B pat MD FD builder_new contraction_init ellipsis_init latin_init article_init wordnum_init mut_new fst_from w2 ->
+  w_e w1 = efresh dc0 c0 ->
+  w_e w2 = efresh dc0 c0 ->
+  wdocs_ok cfg kind dict pat MD FD lang contraction_init ellipsis_init latin_init article_init wordnum_init mut_new fst_from mkdict uses_collapse doc_body (map snd h1) dc0 ->
+  hash_inj_on cfg kind cfg_hash
+    (ehist_triples cfg kind dict fill
+       (erase cfg kind dict pat MD FD lang contraction_init ellipsis_init latin_init article_init wordnum_init mut_new fst_from mkdict uses_collapse doc_body (map snd h1) dc0) c0) ->
+  tok_hash_inj_on cfg kind tok_hash
+    (ehist_triples cfg kind dict fill
+       (erase cfg kind dict pat MD FD lang contraction_init ellipsis_init latin_init article_init wordnum_init mut_new fst_from mkdict uses_collapse doc_body (map snd h1) dc0) c0) ->
+  exists (w1' w2' : world cfg dict B pat MD FD) (outs : list (list clint)),
+    wrun cfg kind dict B DFA pat MD FD lang cfg_hash tok_hash fill pattern_rel struct_pre struct_post spell_on spell_mk ctx builder_new build sdist snorm slower sfinish
+      contraction_init ellipsis_init latin_init article_init wordnum_init mut_new fst_from mkdict uses_collapse doc_body e h1 w1 = Ok (w1', outs) /\
+    wrun cfg kind dict B DFA pat MD FD lang cfg_hash tok_hash fill pattern_rel struct_pre struct_post spell_on spell_mk ctx builder_new build sdist snorm slower sfinish
+      contraction_init ellipsis_init latin_init article_init wordnum_init mut_new fst_from mkdict uses_collapse doc_body e h2 w2 = Ok (w2', outs) /\
+    outs =
+    espec_hist cfg kind dict fill pattern_rel struct_pre struct_post spell_on (suggest_pure dict B DFA builder_new build sdist snorm slower sfinish) spell_mk ctx e
+      (erase cfg kind dict pat MD FD lang contraction_init ellipsis_init latin_init article_init wordnum_init mut_new fst_from mkdict uses_collapse doc_body (map snd h1) dc0)
+      {| a_dict := dc0; a_cfg := c0; a_ign := [] |}.
+Proof. exact thread_assignment_independent. Qed.
+Check C05_thread_assignment_independent : forall (cfg kind dict B DFA pat MD FD lang : Type) (cfg_hash : cfg -> N) (tok_hash : list (tok kind) -> N) (fill : cfg -> cfg)
+    (pattern_rel : dict -> text -> list (tok kind) -> cfg -> list clint) (struct_pre struct_post : dict -> cfg -> doc kind -> list clint) (spell_on : cfg -> bool)
+    (spell_mk : text -> span -> list text -> clint) (ctx : doc kind -> clint -> N) (builder_new : nat -> B) (build : B -> text -> DFA) (sdist : dict -> text -> nat)
+    (snorm slower : text -> text) (sfinish : dict -> text -> DFA -> DFA -> list text) (contraction_init ellipsis_init latin_init article_init wordnum_init : unit -> pat)
+    (mut_new : unit -> MD) (fst_from : MD -> FD) (mkdict : FD -> list text -> dict) (uses_collapse : lang -> bool)
+    (doc_body : dict -> lang -> option pat -> pat -> pat -> pat -> pat -> text -> list (list (tok kind)) * list (span * text) * N) (e : entry)
+    (h1 h2 : list (nat * wop cfg kind dict lang)) (w1 w2 : world cfg dict B pat MD FD) (dc0 : dict) (c0 : cfg),
+  map snd h1 = map snd h2 ->
+  winv cfg dict B pat MD FD builder_new contraction_init ellipsis_init latin_init article_init wordnum_init mut_new fst_from w1 ->
+  winv cfg dict B pat MD FD builder_new contraction_init ellipsis_init latin_init article_init wordnum_init mut_new fst_from w2 ->
+  w_e w1 = efresh dc0 c0 ->
+  w_e w2 = efresh dc0 c0 ->
+  wdocs_ok cfg kind dict pat MD FD lang contraction_init ellipsis_init latin_init article_init wordnum_init mut_new fst_from mkdict uses_collapse doc_body (map snd h1) dc0 ->
+  hash_inj_on cfg kind cfg_hash
+    (ehist_triples cfg kind dict fill
+       (erase cfg kind dict pat MD FD lang contraction_init ellipsis_init latin_init article_init wordnum_init mut_new fst_from mkdict uses_collapse doc_body (map snd h1) dc0) c0) ->
+  tok_hash_inj_on cfg kind tok_hash
+    (ehist_triples cfg kind dict fill
+       (erase cfg kind dict pat MD FD lang contraction_init ellipsis_init latin_init article_init wordnum_init mut_new fst_from mkdict uses_collapse doc_body (map snd h1) dc0) c0) ->
+  exists (w1' w2' : world cfg dict B pat MD FD) (outs : list (list clint)),
+    wrun cfg kind dict B DFA pat MD FD lang cfg_hash tok_hash fill pattern_rel struct_pre struct_post spell_on spell_mk ctx builder_new build sdist snorm slower sfinish
+      contraction_init ellipsis_init latin_init article_init wordnum_init mut_new fst_from mkdict uses_collapse doc_body e h1 w1 = Ok (w1', outs) /\
+    wrun cfg kind dict B DFA pat MD FD lang cfg_hash tok_hash fill pattern_rel struct_pre struct_post spell_on spell_mk ctx builder_new build sdist snorm slower sfinish
+      contraction_init ellipsis_init latin_init article_init wordnum_init mut_new fst_from mkdict uses_collapse doc_body e h2 w2 = Ok (w2', outs) /\
+    outs =
+    espec_hist cfg kind dict fill pattern_rel struct_pre struct_post spell_on (suggest_pure dict B DFA builder_new build sdist snorm slower sfinish) spell_mk ctx e
+      (erase cfg kind dict pat MD FD lang contraction_init ellipsis_init latin_init article_init wordnum_init mut_new fst_from mkdict uses_collapse doc_body (map snd h1) dc0)
+      {| a_dict := dc0; a_cfg := c0; a_ign := [] |}.
+Print Assumptions C05_thread_assignment_independent.
+
+(* non-vacuity: the same eleven operations (lint as plain text, ignore, lint, set-config, lint as Markdown, rebuild
+   with a user word through the process cells, lint in a language whose parser uses CollapseIdentifiers, clear,
+   evict, rebuild back, lint) (a) all on thread 0 of a fresh process and (b) handed round five threads of a
+   process whose cells are set, whose thread 0 has already served distances 1 and 2 and holds garbage in
+   BUFFERS: the hypotheses hold and both runs print the same lints, those of the specification *)
+Example C05_world_nonvacuous :
+  ew_inv ew_world_a /\ ew_inv ew_world_b /\ map snd ew_hist_a = map snd ew_hist_b /\
+  ew_docs_ok (map snd ew_hist_a) 0%N /\
+  hash_inj_on N N (fun c => c) (ehist_triples N N N ee_fill (ew_erase (map snd ew_hist_a) 0%N) 0%N) /\
+  tok_hash_inj_on N N ex_tok_hash (ehist_triples N N N ee_fill (ew_erase (map snd ew_hist_a) 0%N) 0%N) /\
+  ew_outs (ew_run Wasm ew_hist_a ew_world_a) =
+    [[(0, 2, 5%N); (4, 6, 3%N); (11, 12, 7%N); (14, 16, 3%N)];
+     [(0, 2, 5%N); (4, 6, 3%N); (14, 16, 3%N)];
+     [(0, 2, 5%N); (4, 6, 3%N); (14, 16, 3%N)];
+     [(0, 2, 5%N); (4, 6, 3%N); (14, 16, 3%N)];
+     [(0, 2, 5%N); (4, 6, 3%N); (11, 12, 7%N); (14, 16, 3%N)]] /\
+  ew_run Wasm ew_hist_a ew_world_a <> Panic PFuel /\
+  (forall e, ew_outs (ew_run e ew_hist_a ew_world_a) = ew_outs (ew_run e ew_hist_b ew_world_b) /\
+             match ew_run e ew_hist_b ew_world_b with Ok (_, outs) => outs = ew_spec e (ew_erase (map snd ew_hist_a) 0%N) (mkastate 0%N 0%N []) | Panic _ => False end).
+Proof.
+  split; [|split; [|split; [|split; [|split; [|split; [|split; [|split]]]]]]].
+  - split; [split; left; reflexivity|constructor].
+  - split; [split; right; reflexivity|].
+    constructor; [|constructor; [|constructor]]; cbn; unfold tinv, cell_ok; cbn;
+      repeat split; try (left; reflexivity); try (right; reflexivity); repeat constructor.
+  - reflexivity.
+  - unfold ew_docs_ok, ew_hist_a, ew_ops. cbn [map snd wdocs_ok].
+    repeat split; try (eexists; vm_compute; reflexivity).
+  - intros x y Hx Hy. exact (fun e => e).
+  - intros x y Hx Hy. vm_compute in Hx, Hy.
+    repeat (destruct Hx as [Hx|Hx]; [subst x|]); try destruct Hx;
+    repeat (destruct Hy as [Hy|Hy]; [subst y|]); try destruct Hy; vm_compute; intros E; try reflexivity; discriminate E.
+  - vm_compute. reflexivity.
+  - vm_compute. discriminate.
+  - intros []; split; vm_compute; reflexivity.
+Qed.
+
+(* non-vacuity of the builder theorems: a fresh thread asked for distances 2, 3, 2, 0, 3 — each request (two
+   build_dfa calls, as fuzzy_match makes them) is served by the builder of its distance, the vector grows to
+   [3; 2; 0] and satisfies the invariant throughout *)
+Example C05_builders_nonvacuous :
+  builders_ok (fun d => d) drv_builders_init /\
+  (do '(s1, v1) <- drv_fuzzy_served 2 drv_builders_init; do '(s2, v2) <- drv_fuzzy_served 3 v1;
+   do '(s3, v3) <- drv_fuzzy_served 2 v2; do '(s4, v4) <- drv_fuzzy_served 0 v3; do '(s5, v5) <- drv_fuzzy_served 3 v4;
+   Ok ([s1; s2; s3; s4; s5], v5)) = Ok ([2; 3; 2; 0; 3], [(3, 3); (2, 2); (0, 0)]).
+Proof. split; [repeat constructor|vm_compute; reflexivity]. Qed.
+
+(* non-vacuity of the buffer theorem: kitten / sitting with buffers full of garbage of other lengths and with
+   empty buffers: distance 3 both times (no panic); the buffers the call leaves differ from what it found *)
+Example C05_edit_distance_nonvacuous :
+  let kitten := [107; 105; 116; 116; 101; 110]%N in
+  let sitting := [115; 105; 116; 116; 105; 110; 103]%N in
+  drv_ed kitten sitting ([9; 9; 9; 9; 9; 9; 9; 9; 9; 9; 9; 9]%N, [200; 200; 200; 200; 200; 200; 200; 200; 200]%N) =
+    Ok (3%N, ([7; 7; 6; 5; 4; 4; 3]%N, [6; 6; 5; 4; 3; 3; 2]%N)) /\
+  (do '(d, _) <- drv_ed kitten sitting ([], []); Ok d) = Ok 3%N /\
+  (do '(d, _) <- drv_ed kitten [] ([], [255; 255; 255]%N); Ok d) = Ok 6%N.
+Proof. cbv zeta. repeat split; vm_compute; reflexivity. Qed.
+
+(* TABLE THEOREMS (Model/Tables_c05statics.v, regenerated from the Rust sources on every run; the generator raises
+   on any static it does not know and on any change of the code that touches one): the statics of the harper-*
+   crates are once cells and constants, exactly one builder vector and exactly one pair of scratch buffers — the
+   three mechanisms modelled —, and a fresh thread's builder vector is [(EXPECTED_DISTANCE, new(EXPECTED_DISTANCE))]
+   with the EXPECTED_DISTANCE the source states *)
+Theorem C05_statics_table : count_kind BuilderVec = 1 /\ count_kind ScratchBuf = 1 /\
+  count_kind OnceCell + count_kind Const + 2 = length c05_statics /\
+  (forall (B : Type) (f : nat -> B), builders_init f = [(c05_expected_distance, f c05_expected_distance)]).
+Proof. exact statics_table_ok. Qed.
+Check C05_statics_table : count_kind BuilderVec = 1 /\ count_kind ScratchBuf = 1 /\
+  count_kind OnceCell + count_kind Const + 2 = length c05_statics /\
+  (forall (B : Type) (f : nat -> B), builders_init f = [(c05_expected_distance, f c05_expected_distance)]).
+Print Assumptions C05_statics_table.
+
+(* beyond the u8-row threshold the source states, edit_distance_min_alloc leaves BUFFERS untouched *)
+Theorem C05_edit_distance_long_keeps_buffers : forall (src tgt : text) (p c : list N),
+  c05_u8_row_threshold < length src \/ c05_u8_row_threshold < length tgt ->
+  ed_min_alloc src tgt p c = Ok (N.of_nat (Nat.min (ed_long src tgt) 255), (p, c)).
+Proof. exact ed_long_path_keeps_buffers. Qed.
+Check C05_edit_distance_long_keeps_buffers : forall (src tgt : text) (p c : list N),
+  c05_u8_row_threshold < length src \/ c05_u8_row_threshold < length tgt ->
+  ed_min_alloc src tgt p c = Ok (N.of_nat (Nat.min (ed_long src tgt) 255), (p, c)).
+Print Assumptions C05_edit_distance_long_keeps_buffers.
+
+Example C05_edit_distance_long_nonvacuous :
+  c05_u8_row_threshold < length (repeat 97%N 255) /\
+  (do '(d, b) <- drv_ed (repeat 97%N 255) (repeat 97%N 250 ++ [98; 98]%N) ([1; 2]%N, [3]%N); Ok (d, b)) = Ok (5%N, ([1; 2]%N, [3]%N)).
+Proof. split; [vm_compute; reflexivity|vm_compute; reflexivity]. Qed.
